@@ -4,7 +4,7 @@ set -e
 cd /verif
 export CARGO_NET_OFFLINE=true
 mkdir -p target/logs target/shim target/scratch evidence replays
-gcc -O2 -Wall -Wno-nonnull-compare -fno-delete-null-pointer-checks -fPIC -shared -o target/shim/libverifsim.so sim/shim/libverifsim.c -ldl
+gcc -O2 -Wall -Wno-nonnull-compare -fno-delete-null-pointer-checks -fPIC -shared -o target/shim/libverifsim.so sim/shim/libverifsim.c -ldl -lpthread
 (cd sim && cargo build --release --offline)
 (cd /repo && cargo build --release --offline -p zeep --target-dir /verif/target/repo)
 sim/net/run.sh build-only
